@@ -260,6 +260,10 @@ class BaseClient:
         expected_codes = wrap_with_container(expected_codes)
         wait_codes = wrap_with_container(wait_codes)
         if command:
+            if "\r" in command or "\n" in command:
+                # the rest would go out as a command of its own (and the
+                # rest of a password uncensored)
+                raise ValueError("line break in command")
             if censor_after:
                 # Censor the user's command
                 raw = command[:censor_after]
